@@ -34,6 +34,9 @@ func runC12(c *Ctx) {
 			continue
 		}
 		h := storechk.GenMSHist(r, c.Quick())
+		if i%4 == 1 {
+			storechk.AddLateStore(r, &h)
+		}
 		c.Res.Cases++
 		rep := &caseReporter{c: c, caseID: fmt.Sprintf("m%d", i), replay: h}
 		storechk.RunC12(&h, rep)
